@@ -84,7 +84,8 @@ install(globals(), 'C02', view, oracle,
                    'length of the interval whose end is when the update is applied (requested timestep, or the '
                    'remainder to the end time under forced completion); the intervals of a process (invoked or '
                    'skipped while quiet) tile its time line; after update() every process is at the global time '
-                   'with nothing pending. For all timestep assignments, run lengths and call sequences.',
+                   'with nothing pending. For all timestep assignments, all run lengths (zero included: update(0) hands out no '
+                   'empty interval and drains the engine) and all call sequences, forced or not.',
         level_note='Trusted: Lean kernel + standard axioms; scheduler model ~ Engine.run_for via trace '
                    'correspondence; float interval lengths are compared up to 1e-9 of a tick.',
         technique='Lean 4 invariant proof over the scheduler loop + event-trace correspondence',
